@@ -159,6 +159,76 @@ fn check_big(ctx: &mut Ctx, env: &BDDEnv<usize>, k: usize, f: H, name: String) {
     }
 }
 
+/// diagrams over 64 .. 300 variables (chains of literals ending in a small tail): the model
+/// must be a cube over variables of the diagram, and completing it with all-false and with
+/// all-true for the other variables must satisfy the diagram (evaluated by walking it)
+fn wide_models(ctx: &mut Ctx) {
+    let mut idx = 1u64 << 40;
+    for n in [64usize, 65, 128, 254, 255, 256, 257, 300, 600] {
+        for shape in 0..6usize {
+            idx += 1;
+            if !ctx.mine(idx) {
+                continue;
+            }
+            let case = json!({"part": "wide", "n": n, "shape": shape});
+            ctx.begin_case(|| case.clone());
+            ctx.count("evaluations", 1);
+            ctx.count("wide_models", 1);
+            let key = format!("{TAG} model of a chain over {n} variables (shape {shape})");
+            let env = BDDEnv::<usize>::new();
+            let r = guarded(|| {
+                let lit = |i: usize| if shape % 3 == 1 && i % 3 == 2 { env.not(env.var(i)) } else { env.var(i) };
+                let tail = match shape % 3 {
+                    2 => env.or(env.var(n), env.var(n + 1)),
+                    _ => env.mk_const(shape < 3),
+                };
+                let f = (0..n).rev().fold(tail, |acc, i| if shape < 3 { env.and(lit(i), acc) } else { env.or(lit(i), acc) });
+                let m = env.model(f.clone());
+                (f, m)
+            });
+            let (f, m) = match r {
+                Ok(x) => x,
+                Err(p) => {
+                    ctx.violation(key, format!("panicked: {p}"), case);
+                    continue;
+                }
+            };
+            let eval = |d: &BDD<usize>, a: &dyn Fn(usize) -> bool| -> bool {
+                let mut n = d;
+                loop {
+                    match n {
+                        BDD::True => return true,
+                        BDD::False => return false,
+                        BDD::Choice(t, v, e) => n = if a(*v) { t.as_ref() } else { e.as_ref() },
+                    }
+                }
+            };
+            // every one of these diagrams is satisfiable
+            if m.is_false() {
+                ctx.violation(key, "model is the false leaf although the diagram is satisfiable".to_string(), case);
+                continue;
+            }
+            let Some(lits) = robdd::as_cube(&m) else {
+                ctx.violation(key, "model is not a single conjunction of literals".to_string(), case);
+                continue;
+            };
+            let mut support = vec![];
+            robdd::labels(&f, &mut support);
+            if let Some((v, _)) = lits.iter().find(|(v, _)| !support.contains(v)) {
+                ctx.violation(key, format!("the model mentions variable {v}, on which the diagram does not depend"), case);
+                continue;
+            }
+            for rest in [false, true] {
+                let a = |v: usize| lits.iter().find(|(x, _)| *x == v).map(|(_, p)| *p).unwrap_or(rest);
+                if !eval(&f, &a) {
+                    ctx.violation(key, format!("an assignment satisfying the model (other variables {rest}) does not satisfy the diagram"), case);
+                    break;
+                }
+            }
+        }
+    }
+}
+
 fn family(ctx: &mut Ctx, only: Option<&str>) {
     let mut idx = 0u64;
     for k in 5..=8usize {
@@ -327,6 +397,7 @@ fn run(ctx: &mut Ctx) {
         }
     }
     family(ctx, None);
+    wide_models(ctx);
     let set = cli_formula_set(if ctx.thorough() { 4 } else { 3 });
     for (i, (a, _, _)) in set.iter().enumerate() {
         if ctx.mine(i as u64) {
@@ -351,6 +422,15 @@ fn replay(ctx: &mut Ctx, c: &Value) {
             crate::cli::cleanup_scratch();
         }
         Some("family") => family(ctx, c["name"].as_str()),
+        Some("wide") => {
+            let mut c2 = Ctx::new("C07", ctx.tier, ctx.seed, 0, 1);
+            wide_models(&mut c2);
+            for v in c2.violations {
+                if v.replay == *c {
+                    ctx.violation(v.key, v.what, v.replay);
+                }
+            }
+        }
         _ => {
             let k = c["k"].as_u64().unwrap_or(4) as usize;
             if c["foreign"].as_bool().unwrap_or(false) {
